@@ -281,6 +281,86 @@ static void tree_desc(const struct treeref* t, char* out, size_t cap) {
   snprintf(out + o, cap - o, "}");
 }
 
+/* ---------- Trees whose key and value types are plain structs of any small size ---------- */
+
+enum { MAXPT = 5 };
+struct ptref { int n; size_t ks, vs; unsigned char k[MAXPT][24]; unsigned char v[MAXPT][24]; };   /* keys ascending by memcmp, distinct */
+
+static void ptref_sort(struct ptref* t) {
+  for (int i = 1; i < t->n; i++) {
+    for (int j = i; j > 0 && memcmp(t->k[j - 1], t->k[j], t->ks) > 0; j--) {
+      unsigned char x[24];
+      memcpy(x, t->k[j], 24); memcpy(t->k[j], t->k[j - 1], 24); memcpy(t->k[j - 1], x, 24);
+      memcpy(x, t->v[j], 24); memcpy(t->v[j], t->v[j - 1], 24); memcpy(t->v[j - 1], x, 24);
+    }
+  }
+}
+
+static void rand_ptree(vh_rng* r, struct ptref* t, const struct ptref* like, size_t ks, size_t vs) {
+  if (like && vh_chance(r, 60)) {
+    *t = *like;
+    switch (vh_below(r, 3)) {
+      case 0: if (t->n > 0) { t->n--; } break;
+      case 1: if (t->n > 0) { unsigned char* q = &t->v[vh_below(r, (uint64_t)t->n)][vh_below(r, vs)]; *q = (unsigned char)(*q + 1 + vh_below(r, 2)); } break;
+      default: break;
+    }
+    return;
+  }
+  memset(t, 0, sizeof *t);
+  t->ks = ks; t->vs = vs;
+  int want = (int)vh_below(r, MAXPT + 1);
+  for (int i = 0; i < want; i++) {
+    unsigned char k[24] = {0};
+    for (size_t b = 0; b < ks; b++) { k[b] = (unsigned char)vh_below(r, 3); }
+    bool dup = false;
+    for (int j = 0; j < t->n; j++) { dup = dup || memcmp(t->k[j], k, ks) == 0; }
+    if (dup) { continue; }
+    memcpy(t->k[t->n], k, 24);
+    for (size_t b = 0; b < vs; b++) { t->v[t->n][b] = (unsigned char)vh_below(r, 3); }
+    t->n++;
+  }
+  ptref_sort(t);
+}
+
+static int ptree_ref_cmp(const struct ptref* a, const struct ptref* b) {
+  for (int i = 0; ; i++) {
+    if (i == a->n && i == b->n) { return 0; }
+    if (i == a->n) { return -1; }
+    if (i == b->n) { return 1; }
+    int ia = tree_dir > 0 ? i : a->n - 1 - i, ib = tree_dir > 0 ? i : b->n - 1 - i;
+    int c = sgn(memcmp(a->k[ia], b->k[ib], a->ks));
+    if (c) { return c; }
+    c = sgn(memcmp(a->v[ia], b->v[ib], a->vs));
+    if (c) { return c; }
+  }
+}
+
+static var ptree_build(vh_rng* r, const struct ptref* t, var kt, var vt) {
+  var m = new(Tree, kt, vt);
+  int order[MAXPT];
+  for (int i = 0; i < t->n; i++) { order[i] = i; }
+  for (int i = t->n - 1; i > 0; i--) { int j = (int)vh_below(r, (uint64_t)i + 1); int x = order[i]; order[i] = order[j]; order[j] = x; }
+  for (int i = 0; i < t->n; i++) {
+    _Alignas(16) char bk[sizeof(struct Header) + 32], bv[sizeof(struct Header) + 32];
+    memset(bk, 0, sizeof bk); memset(bv, 0, sizeof bv);
+    var k = header_init(bk, kt, AllocStack), v = header_init(bv, vt, AllocStack);
+    memcpy(k, t->k[order[i]], t->ks); memcpy(v, t->v[order[i]], t->vs);
+    set(m, k, v);
+  }
+  return m;
+}
+
+static void ptree_desc(const struct ptref* t, char* out, size_t cap) {
+  size_t o = (size_t)snprintf(out, cap, "Tree<%zuB,%zuB>{", t->ks, t->vs);
+  for (int i = 0; i < t->n && o + 60 < cap; i++) {
+    o += (size_t)snprintf(out + o, cap - o, "%s", i ? "," : "");
+    for (size_t b = 0; b < t->ks && b < 6; b++) { o += (size_t)snprintf(out + o, cap - o, "%u", t->k[i][b]); }
+    o += (size_t)snprintf(out + o, cap - o, ":");
+    for (size_t b = 0; b < t->vs && b < 6; b++) { o += (size_t)snprintf(out + o, cap - o, "%u", t->v[i][b]); }
+  }
+  snprintf(out + o, cap - o, "}");
+}
+
 /* ---------- fixed part ---------- */
 
 static void lookup_boundary_keys(void) {
@@ -467,6 +547,25 @@ static void case_random(vh_rng* r, long index) {
     check_triple("tree", a, b, c, d);
     if (n == 0) { vh_op("tree %s", d); }
     vh_count("tree_pairs");
+    del(a); del(b); del(c);
+  }
+  /* trees keyed by (and holding) plain structs of any small size: key then value, byte-wise, in key order */
+  for (int n = 0; n < 4; n++) {
+    int ki = (int)vh_below(r, NPSZ), vi = (int)vh_below(r, NPSZ);
+    struct ptref ta, tb, tc;
+    rand_ptree(r, &ta, NULL, PSZ_SIZE[ki], PSZ_SIZE[vi]); rand_ptree(r, &tb, &ta, PSZ_SIZE[ki], PSZ_SIZE[vi]); rand_ptree(r, &tc, &tb, PSZ_SIZE[ki], PSZ_SIZE[vi]);
+    var a = ptree_build(r, &ta, PSZ[ki], PSZ[vi]), b = ptree_build(r, &tb, PSZ[ki], PSZ[vi]), c = ptree_build(r, &tc, PSZ[ki], PSZ[vi]);
+    char d[500], da[150], db[150], dc[150];
+    ptree_desc(&ta, da, sizeof da); ptree_desc(&tb, db, sizeof db); ptree_desc(&tc, dc, sizeof dc);
+    snprintf(d, sizeof d, "%s vs %s", da, db);
+    check_pair("ptree", a, b, ptree_ref_cmp(&ta, &tb), d);
+    snprintf(d, sizeof d, "%s, %s, %s", da, db, dc);
+    check_triple("ptree", a, b, c, d);
+    check_pair("ptree", a, a, 0, da);
+    if (ta.n && tb.n) {
+      vh_count("struct_keyed_tree_pairs");
+      if (PSZ_SIZE[ki] % sizeof(var)) { vh_count("struct_keyed_tree_pairs_with_a_key_size_that_is_not_a_whole_number_of_words"); }
+    }
     del(a); del(b); del(c);
   }
 }
